@@ -174,6 +174,9 @@ def _validate_union(datum, schema, named_schemas, parent_ns, raise_errors, optio
     validate as True.
     """
     if isinstance(datum, tuple) and not options.get("disable_tuple_notation"):
+        if len(datum) != 2:
+            # not a (branch name, value) pair: no branch is selected
+            return False
         (name, datum) = datum
         for candidate in schema:
             extracted_type = extract_record_type(candidate)
